@@ -1,9 +1,45 @@
 import Iox2.Model.EventPorts
 import Driver.Util
 namespace Driver.EventPortsD
-open Driver
+open Iox2.EventPorts Driver
 
-def stepLine (s : Unit) (_t : List String) : Unit × String := (s, "unimplemented")
+def optNat (s : String) : Option Nat := if s = "-" then none else some (nat! s)
+def clamp1 (n : Nat) : Nat := if n = 0 then 1 else n
 
-def comp : Comp := { σ := Unit, init := (), step := stepLine }
+def parse (t : List String) : Option Op :=
+  match t with
+  | ["open", k] => some (.open (nat! k))
+  | ["cnot", n, d, k] => some (.cnot (nat! n) (optNat d) (nat! k))
+  | ["dnot", n] => some (.dnot (nat! n))
+  | ["clis", l, k] => some (.clis (nat! l) (nat! k))
+  | ["dlis", l] => some (.dlis (nat! l))
+  | ["notify", n] => some (.notify (nat! n))
+  | ["notifyid", n, i] => some (.notifyId (nat! n) (nat! i))
+  | ["wait", l] => some (.wait (nat! l))
+  | ["twait", l] => some (.wait (nat! l))
+  | ["count", k] => some (.count (nat! k))
+  | ["dnode", k] => some (.dnode (nat! k))
+  | ["dsvc", k] => some (.dsvc (nat! k))
+  | ["kill", k] => some (.kill (nat! k))
+  | ["cleanup", k] => some (.cleanup (nat! k))
+  | ["ls"] => some .ls
+  | _ => none
+
+def stepLine (w : Option World) (t : List String) : Option World × String :=
+  match t with
+  | ["new", variant, mn, ml, idmax, c, d, x, nodes, dl] =>
+      -- the service builder adjusts zero limits to one
+      let cfg : Cfg := { maxNot := clamp1 (nat! mn), maxLis := clamp1 (nat! ml), maxNodes := clamp1 (nat! nodes), idMax := nat! idmax,
+                         created := optNat c, dropped := optNat d, dead := optNat x,
+                         deadline := if dl = "long" then 1 else if dl = "short" then 2 else 0, ipc := variant == "ipc" }
+      (some (World.init cfg), "ok")
+  | _ =>
+    match w with
+    | none => (none, "no-world")
+    | some w =>
+      match parse t with
+      | none => (some w, "bad-op")
+      | some op => let (w', out) := step w op; (some w', out.render)
+
+def comp : Comp := { σ := Option World, init := none, step := stepLine }
 end Driver.EventPortsD
